@@ -123,6 +123,7 @@ class GroupScenario:
         self.stop_flag = False
         self.stop_tasks = {}  # member -> task running a stop() placed by the explorer (C19)
         self.stop_ctx = {}
+        self.started = set()
 
     def fail(self, oracle, sig, msg):
         self.violations.append((oracle, sig, msg))
@@ -186,7 +187,7 @@ class GroupScenario:
                     out.append(Alt(f"kill:c{i}", "k", lambda i=i: self.kill(i)))
         if p.get("stop_alt") and ch.remaining("k") > 0 and not self.stop_tasks and not self.killed:
             for i, c in self.consumers.items():
-                if i not in self.stopped and (self.alive.get(i) or p.get("stop_during_start")):
+                if i not in self.stopped and self.alive.get(i) and (i in self.started or p.get("stop_during_start")):
                     out.append(Alt(f"stop:c{i}", "k", lambda i=i: self.begin_stop(i)))
         if p.get("cluster_modes") and quiescent and ch.remaining("f") > 0 and not getattr(self, "_mode", None):
             for n in self.cluster.nodes:
@@ -288,12 +289,16 @@ class GroupScenario:
         else:
             c.subscribe(spec.get("topics", ["t"]), listener=L())
         self.rec("subscribe", i, tuple(spec.get("topics", ())) or spec.get("pattern"))
+        # a member whose start() is still trying to join is a live member too (start() of a subscribed consumer only returns
+        # after the first successful join)
+        self.alive[i] = True
         try:
             await c.start()
         except Exception as e:  # noqa: BLE001 - a failed bootstrap is outside the properties
+            self.alive[i] = False
             self.rec("start-failed", i, type(e).__name__)
             return
-        self.alive[i] = True
+        self.started.add(i)
         self.rec("started", i)
         extra = []
         if spec.get("commit_task"):
